@@ -112,6 +112,10 @@ def sim_case(inputs, output, sd, order, res):
     cmap = {i: i for i in range(n)}
     cp_flops = 0
 
+    # the evaluator's own outputs, chained from step to step exactly as an
+    # accepted annealing move injects them into the tree
+    achain = {}
+
     nxt = n
     for (i, j) in order:
         l, r = tnodes.pop(i), tnodes.pop(j)
@@ -132,6 +136,27 @@ def sim_case(inputs, output, sd, order, res):
                             sorted(want_legs)))
         if cost_a != want_flops:
             bad.append(("anneal-flops", cost_a, want_flops))
+        legs_c, cost_c, size_c = sa.compute_contracted_info(
+            achain.get(l, tree.get_legs(l)), achain.get(r, tree.get_legs(r)),
+            tree.appearances, sd)
+        achain[l | r] = legs_c
+        if len(l | r) != n:
+            # multiplicities: occurrences of each surviving index inside
+            # the contracted group
+            want_counts = {
+                ix: sum(inputs[k].count(ix) for k in (l | r))
+                for ix in want_legs}
+            if dict(legs_c) != want_counts:
+                bad.append(("anneal-chained-leg-counts",
+                            sorted(dict(legs_c).items()),
+                            sorted(want_counts.items())))
+            if size_c != want_size:
+                bad.append(("anneal-chained-size", size_c, want_size))
+        elif set(legs_c) != want_legs or size_c != want_size:
+            bad.append(("anneal-chained-root", sorted(legs_c),
+                        sorted(want_legs)))
+        if cost_c != want_flops:
+            bad.append(("anneal-chained-flops", cost_c, want_flops))
         # -- tree
         p = tree.contract_nodes_pair(l, r)
         tnodes[nxt] = p
